@@ -200,7 +200,7 @@ def mirror_view(txt, toks):
     return "".join(parts)
 
 
-def run_case(case, drv, wd, phase_c, env_extra=None, kill_stride=1, extra_env_b=None, binary=None, bin_stride=7):
+def run_case(case, drv, wd, phase_c, env_extra=None, kill_stride=1, extra_env_b=None, binary=None, bin_stride=7, env_of=None, no_kills_of=None):
     """returns {"obs": [...], "aux": [...]}"""
     cid, hdr, ops = case
     os.makedirs(wd, exist_ok=True)
@@ -213,6 +213,8 @@ def run_case(case, drv, wd, phase_c, env_extra=None, kill_stride=1, extra_env_b=
     env = dict(os.environ)
     env.update({"VERIF_PRINT_ORDER": "1", "RUST_BACKTRACE": "0"})
     env.update(env_extra or {})
+    if env_of:
+        env.update(env_of(case) or {})
     dbs = [h for h in hdr if not h.startswith("@")]
     obs, aux = [], []
     dA = os.path.join(wd, "A")
@@ -295,7 +297,7 @@ def run_case(case, drv, wd, phase_c, env_extra=None, kill_stride=1, extra_env_b=
     unexpected = sorted(k for k in seen if k not in KINDS)
     for ty in KINDS:
         n = 1
-        while n <= MAXKILLS:
+        while n <= MAXKILLS and not (no_kills_of and no_kills_of(case)):
             k2, replies, _st, fl2, _lb, txt2, lo2 = run_b(os.path.join(wd, "K%s%d" % (ty, n)), ty, n)
             if not k2:
                 break
